@@ -70,7 +70,7 @@ PROPS = {
              "the read routine was not parked in Read, a hook gate in use, or >= 2 consecutive failed connects.",
         assumptions=ASSUME_SIM + ["ReadBackoff lower bounds are measured on the wall clock with 0.5 ms tolerance; upper bound documented idle + 2 s"],
         quick=dict(engines=[rapid('^TestC10', 1600)]),
-        thorough=dict(engines=[rapid('^TestC10', 40000, shards=14, timeout=1500)]),
+        thorough=dict(engines=[rapid('^TestC10', 40000, shards=14, timeout=1500), rapid('^TestC10', 2000, shards=8, steps=30, timeout=1500, race=True)]),
     ),
     'C11': dict(
         claimed=True,
@@ -89,7 +89,7 @@ PROPS = {
              "Non-trivial: >= 2 requests in flight when a response, a connection loss or a quit arrived.",
         assumptions=ASSUME_SIM,
         quick=dict(engines=[rapid('^TestC11Requests', 2400, steps=40), rapid('^TestC11KnownF07', 3, shards=1, fixed=True)]),
-        thorough=dict(engines=[rapid('^TestC11Requests', 60000, shards=14, steps=70, timeout=1500), rapid('^TestC11KnownF07', 3, shards=1, fixed=True)]),
+        thorough=dict(engines=[rapid('^TestC11Requests', 60000, shards=14, steps=70, timeout=1500), rapid('^TestC11Requests', 2000, shards=8, steps=50, timeout=1500, race=True), rapid('^TestC11KnownF07', 3, shards=1, fixed=True)]),
     ),
     'C12': dict(
         claimed=True,
@@ -108,7 +108,7 @@ PROPS = {
              "| closed | closed later)}. Non-trivial: a state other than online-idle/never-connected, or >= 2 concurrent calls.",
         assumptions=ASSUME_SIM + ["Disconnect with a nil or unfired quit may wait for a writer which is inside Write (documented: 'nil just blocks'); Close may not"],
         quick=dict(engines=[rapid('^TestC12', 2400)]),
-        thorough=dict(engines=[rapid('^TestC12', 60000, shards=14, timeout=1500)]),
+        thorough=dict(engines=[rapid('^TestC12', 60000, shards=14, timeout=1500), rapid('^TestC12', 2000, shards=8, steps=30, timeout=1500, race=True)]),
     ),
     'C04': dict(
         claimed=True,
@@ -267,7 +267,7 @@ PROPS = {
              "retransmissions (>= 2 in flight at a reconnect) or a concurrent burst ran; distinct canonical scripts.",
         assumptions=ASSUME_SIM,
         quick=dict(engines=[rapid('^TestC05', 1600, steps=40)]),
-        thorough=dict(engines=[rapid('^TestC05', 40000, shards=14, steps=70, timeout=1500)]),
+        thorough=dict(engines=[rapid('^TestC05', 40000, shards=14, steps=70, timeout=1500), rapid('^TestC05', 2000, shards=8, steps=50, timeout=1500, race=True)]),
     ),
     'C01': dict(
         claimed=True,
@@ -286,7 +286,7 @@ PROPS = {
              "canonical action scripts.",
         assumptions=ASSUME_SIM,
         quick=dict(engines=[rapid('^TestC01', 1600, steps=40)]),
-        thorough=dict(engines=[rapid('^TestC01', 40000, shards=14, steps=70, timeout=1500)]),
+        thorough=dict(engines=[rapid('^TestC01', 40000, shards=14, steps=70, timeout=1500), rapid('^TestC01', 2000, shards=8, steps=50, timeout=1500, race=True)]),
     ),
     'C08': dict(
         claimed=True,
@@ -302,7 +302,7 @@ PROPS = {
              "requests; distinct = distinct canonical action scripts (64-bit FNV-1a).",
         assumptions=ASSUME_SIM,
         quick=dict(engines=[rapid('^TestC08', 1600, steps=40)]),
-        thorough=dict(engines=[rapid('^TestC08', 40000, shards=14, steps=60, timeout=1500)]),
+        thorough=dict(engines=[rapid('^TestC08', 40000, shards=14, steps=60, timeout=1500), rapid('^TestC08', 2000, shards=8, steps=50, timeout=1500, race=True)]),
     ),
 }
 
@@ -398,7 +398,7 @@ RULE_ADDENDA = {
            "timeout, timeout-with-progress or reset).",
     'C09': "Also: the over-the-limit payload class is drawn in 1 of 8 quick-tier cases.",
     'C10': "Also: reader states skipping-dup-big (discarding the payload of a retransmitted exactly-once message larger than the "
-           "read buffer, tail outstanding) and holding-big-tail-outstanding; failure 'silence' (nothing but PauseTimeout). Extra "
+           "read buffer, tail outstanding) and holding-big-tail-outstanding; failure 'silence' (nothing but PauseTimeout); in state handshake the broker may stay silent for good. Extra "
            "invariant: once ReadSlices reported an error while reading from a connection, no later ReadSlices reads from it.",
     'C11': "Also: connectFails (connection lost; the next attempt parks in the Dialer or in the handshake; 1-3 requests are "
            "issued meanwhile; the attempt fails; they must return without any further ReadSlices).",
